@@ -41,6 +41,10 @@ func (c *FnCtx) instr(in ssa.Instruction) {
 	case *ssa.Convert:
 		c.instrConvert(x)
 	case *ssa.MakeInterface:
+		if kindOf(x.X.Type()) == kBig {
+			// convention of the value model: a *big.Int carried by an interface is never nil
+			c.safety("box-nil-big", not(eq(c.term(x.X), "0")), x.Pos(), "nil *big.Int converted to an interface value")
+		}
 		c.setVal(x, c.box(x.X.Type(), c.term(x.X)))
 	case *ssa.TypeAssert:
 		c.instrTypeAssert(x)
@@ -134,11 +138,17 @@ func (c *FnCtx) instrAlloc(x *ssa.Alloc) {
 	// heap object
 	r := c.newRef()
 	c.vals[x] = r
-	a := c.addrOfPtr(r, et)
-	c.store(a, c.zero(et))
 	if kindOf(x.Type()) == kBig {
 		c.bigSet(r, "0")
+		return
 	}
+	if n, ok := types.Unalias(et).(*types.Named); ok && n.Obj().Pkg() != nil && !c.eng.ownPkg(n.Obj().Pkg().Path()) {
+		if _, isStruct := n.Underlying().(*types.Struct); isStruct {
+			return // foreign struct: opaque object
+		}
+	}
+	a := c.addrOfPtr(r, et)
+	c.store(a, c.zero(et))
 }
 
 func (c *FnCtx) bigHeap() string { return c.heapGet("BIG", "(Array Int Int)") }
